@@ -152,6 +152,8 @@ static void run(const Case &c, Info &info) {
             VCHECK(after.voices.notes[i].empty(), "mode switch %s: channel %zu still has %zu sounding note(s)", mh.c_str(), i, after.voices.notes[i].size());
         }
         for(size_t k = 0; k < after.voices.nchan; k++) VCHECK(after.voices.users[k].empty() && !(k < W.keys.on.size() && W.keys.on[k]), "mode switch %s: chip channel %zu still in use / keyed on", mh.c_str(), k);
+        // a GS reset puts every part back to its default use: custom drum-part assignments (made by a drum-part message or left over from XG drum banks) are gone
+        if(v.e == E_GS) for(size_t i = 0; i < after.ch.size(); i++) VCHECK(!p->m_midiChannels[i].is_xg_percussion, "GS reset %s: channel %zu is still a custom drum part", mh.c_str(), i);
         break;
     }
     case E_MASTERVOL: {
@@ -262,7 +264,7 @@ static rc::Gen<std::vector<Op>> genPrior() {
         case 0: case 1: case 2: return Op{O_NOTEON, ch, 60 + b % 4, 1 + a % 127};
         case 3: return Op{O_NOTEOFF, ch, 60 + b % 4, 0};
         case 4: return Op{O_CC, ch, 64, (b & 1) ? 127 : 0};
-        case 5: { static const int cc[] = {7, 11, 10, 1, 74, 65, 5, 67, 0, 32, 101, 100, 6}; return Op{O_CC, ch, cc[b % 13], a % 128}; }
+        case 5: { static const int cc[] = {7, 11, 10, 1, 74, 65, 5, 67, 0, 32, 101, 100, 6, 0}; int ctl = cc[b % 14]; int val = a % 128; if(ctl == 0 && (a / 128) % 2) val = (a & 1) ? 127 : 126; /* XG drum banks: make the channel a drum part */ return Op{O_CC, ch, ctl, val}; }
         case 6: return Op{O_BEND, ch, (b * 37) % 16384, 0};
         case 7: return Op{O_PATCH, ch, b % 8, 0};
         case 8: return Op{O_ATCH, ch, b % 128, 0};
